@@ -93,7 +93,8 @@ def run(c):
         if len(tables) != 3 or nrows < 7000:
             raise vlib.Infra("owner table incomplete: %d tables, %d rows" % (len(tables), nrows))
         inpath = os.path.join(c.work, "slot_in.json")
-        json.dump({"tables": tables, "sweep_rounds": 3, "future_reps": 6 if thorough else 2}, open(inpath, "w"))
+        json.dump({"tables": tables, "sweep_rounds": 3, "sweep_intervals": [1000, 2000, 3000] if thorough else [1000],
+                   "future_reps": 6 if thorough else 2}, open(inpath, "w"))
         outpath = os.path.join(c.work, "slot_out.json")
         t0 = time.time()
         rc, output = vlib.go_test("./consensus/impl/dpos/slot/", "^TestVerifSlot$",
